@@ -6,7 +6,7 @@ import ast
 import re
 
 from ..cfg import cfg_of
-from ..core import named_args, seq, AnalysisError, call_name, unparse, walk_no_nested
+from ..core import named_args, seq, AnalysisError, call_name, const_value, inline_locals, unparse, walk_no_nested
 from ..pattern import _parse, body_is, find, find_expr, has, has_expr, m_node
 from ..report import Ctx
 
@@ -20,6 +20,206 @@ SC = 'sampling_of_alternatives.sampling_context'
 POSITIVE: list[tuple[str, str, str]] = [
     ('C19.R3', r'^GenerateModel\.', 'a column name built for an index over one sample carries (or lacks) the prefix of the other sample'),
 ]
+
+
+#: spellings of the prefix of the second sample inside GenerateModel, and of the column names of the generated data
+_PREFIX_EXPRS = ('self.mev_prefix', 'self.context.mev_prefix', 'MEV_PREFIX')
+_COLUMN_EXPRS = ('LOG_PROBA_COL', 'MEV_WEIGHT', 'CNL_PREFIX', 'self.context.id_column')
+
+
+def _copies(cfg, expr: ast.expr, at, stop: str, depth: int = 6) -> list[tuple[ast.expr, int | None]]:
+    """(expression, cfg node where it is evaluated) pairs the value of ``expr`` evaluated at node ``at`` may stand for, following
+    plain copies of locals backwards through the reaching definitions; a read of the variable ``stop`` is not followed further"""
+    if depth == 0 or at is None or not isinstance(expr, ast.Name) or expr.id == stop:
+        return [(expr, at)]
+    ds = cfg.reaching(at, expr.id)
+    if not ds:
+        return [(expr, at)]
+    out: list[tuple[ast.expr, int | None]] = []
+    for d in ds:
+        if d.kind == 'assign' and d.value is not None:
+            out += _copies(cfg, d.value, d.node, stop, depth - 1)
+        else:
+            out.append((expr, at))
+    return out
+
+
+def _under_not_none(fn: ast.AST, w: ast.Assign) -> bool:
+    """the assignment ``w`` of a local stands in the body of `if <that local> is not None`"""
+    if not isinstance(w.value, ast.Name):
+        return False
+    v = w.value.id
+    for n in ast.walk(fn):
+        if isinstance(n, ast.If) and any(x is w for s in n.body for x in ast.walk(s)):
+            t = n.test
+            if isinstance(t, ast.Compare) and len(t.ops) == 1 and isinstance(t.ops[0], (ast.IsNot, ast.NotEq)):
+                for p_, q_ in ((t.left, t.comparators[0]), (t.comparators[0], t.left)):
+                    if isinstance(p_, ast.Name) and p_.id == v and isinstance(q_, ast.Constant) and q_.value is None:
+                        return True
+    return False
+
+
+_DV = """
+for _NV in self.combined_variables:
+    for _I in range(self.total_sample_size):
+        _E = copy.deepcopy(_NV.formula)
+        _A = self.get_attributes_from_expression(_E)
+        _E.rename_elementary(_A, suffix=f'_{_I}')
+        database.define_variable(f'{_NV.name}_{_I}', _E)
+        ___
+    if self.second_partition is not None:
+        for _J in range(self.second_sample_size):
+            _E2 = copy.deepcopy(_NV.formula)
+            _A2 = self.get_attributes_from_expression(_E2)
+            _E2.rename_elementary(_A2, prefix=MEV_PREFIX, suffix=f'_{_J}')
+            database.define_variable(f'{MEV_PREFIX}{_NV.name}_{_J}', _E2)
+""".replace('_E2', '_E').replace('_A2', '_A').replace('_J', '_I')
+
+
+def _inlined(fn: ast.AST) -> ast.AST:
+    """copy of the function in which every single-definition local is replaced by its defining expression (core.inline_locals) and
+    the definitions that are no longer read and only name a path / a constant are dropped"""
+    t = inline_locals(fn, fn)
+    loaded = {n.id for n in ast.walk(t) if isinstance(n, ast.Name) and isinstance(n.ctx, ast.Load)}
+
+    def path(e):
+        while isinstance(e, ast.Attribute):
+            e = e.value
+        return isinstance(e, (ast.Name, ast.Constant))
+
+    class Drop(ast.NodeTransformer):
+        def visit_Assign(self, st):
+            if len(st.targets) == 1 and isinstance(st.targets[0], ast.Name) and st.targets[0].id not in loaded and path(st.value):
+                return None
+            return st
+
+    return ast.fix_missing_locations(Drop().visit(t))
+
+
+def _default_of(fn: ast.FunctionDef, name: str):
+    a = fn.args
+    pos = a.posonlyargs + a.args
+    for p_, d in zip(pos[len(pos) - len(a.defaults):], a.defaults):
+        if p_.arg == name:
+            return d
+    for p_, d in zip(a.kwonlyargs, a.kw_defaults):
+        if p_.arg == name:
+            return d
+    return None
+
+
+def _bind(prog, call: ast.Call) -> dict[str, ast.expr] | None:
+    """parameter name -> argument of a method call, keyword or positional alike, when every definition of that method name in the
+    package lists its parameters in the same order; None when the arguments cannot all be named (the rule then has no opinion)"""
+    if not isinstance(call.func, ast.Attribute) or any(k.arg is None for k in call.keywords) or any(isinstance(a, ast.Starred) for a in call.args):
+        return None
+    out = {k.arg: k.value for k in call.keywords}
+    if not call.args:
+        return out
+    orders = {tuple(g.positional_params()[1:]) for g in prog.methods_named(call.func.attr) if 'staticmethod' not in g.decorators()}
+    if len(orders) != 1:
+        return None
+    order = next(iter(orders))
+    if len(call.args) > len(order) or any(p_ in out for p_ in order[:len(call.args)]):
+        return None
+    out.update(zip(order, call.args))
+    return out
+
+
+def _without_default_args(prog, tree: ast.AST) -> ast.AST:
+    """the tree (already a private copy) with the method calls whose arguments can all be named (_bind) written one way: first
+    parameter positional, the others by keyword in the order of the signature, without the arguments that spell out the literal
+    default every definition of that method name in the package has: f(x, None, s) is f(x, prefix=None, suffix=s) is f(x, suffix=s)"""
+
+    class T(ast.NodeTransformer):
+        def visit_Call(self, c):
+            self.generic_visit(c)
+            from .. import normal
+
+            if isinstance(c.func, ast.Attribute) and (normal.METHOD_SIGS.get(c.func.attr) or normal.SIGS.get(c.func.attr)):
+                return c  # the normal form already writes the calls of this method one way
+            bound = _bind(prog, c)
+            if bound is None:
+                return c
+            cands = [g for g in prog.methods_named(c.func.attr)]
+            orders = {tuple(g.positional_params()[1:]) for g in cands if 'staticmethod' not in g.decorators()}
+            for name, v in list(bound.items()):
+                ds = [_default_of(g.node, name) for g in cands]
+                if ds and isinstance(v, ast.Constant) and all(isinstance(d, ast.Constant) and type(d.value) is type(v.value) and d.value == v.value for d in ds):
+                    del bound[name]
+            if len(orders) == 1:
+                order = next(iter(orders))
+                names = sorted(bound, key=lambda n_: order.index(n_) if n_ in order else len(order))
+                first = order[0] if order and order[0] in bound and c.args else None  # stays positional when it was written so
+                c.args = [bound[first]] if first else []
+                c.keywords = [ast.keyword(arg=n_, value=bound[n_]) for n_ in names if n_ != first]
+            else:
+                c.keywords = [k for k in c.keywords if k.arg in bound]
+            return c
+
+    return ast.fix_missing_locations(T().visit(tree))
+
+
+def _own_paths(fn: ast.FunctionDef) -> dict[str, ast.expr]:
+    """attribute of self -> the path on a parameter it is given once, unconditionally, in this function (`self.context = context`,
+    `self.total_sample_size = context.total_sample_size`): inside the function the two spellings denote the same object"""
+    a = fn.args
+    pos = a.posonlyargs + a.args
+    if not pos:
+        return {}
+    me = pos[0].arg
+    params = {x.arg for x in pos + a.kwonlyargs} - {me}
+    rebound = {n.id for n in ast.walk(fn) if isinstance(n, ast.Name) and isinstance(n.ctx, (ast.Store, ast.Del))}
+    stores: dict[str, int] = {}
+    for n in ast.walk(fn):
+        if isinstance(n, ast.Attribute) and isinstance(n.ctx, (ast.Store, ast.Del)) and isinstance(n.value, ast.Name) and n.value.id == me:
+            stores[n.attr] = stores.get(n.attr, 0) + 1
+    env: dict[str, ast.expr] = {}
+    for st in fn.body:
+        if isinstance(st, ast.Assign) and len(st.targets) == 1 and isinstance(t := st.targets[0], ast.Attribute) and isinstance(t.value, ast.Name) and t.value.id == me and stores.get(t.attr) == 1:
+            v = _subst_own(st.value, env, me)
+            root = v
+            while isinstance(root, ast.Attribute):
+                root = root.value
+            if isinstance(root, ast.Name) and root.id in params and root.id not in rebound:
+                env[t.attr] = v
+    env['__self__'] = ast.Name(id=me, ctx=ast.Load())
+    return env
+
+
+def _subst_own(tree: ast.AST, env: dict[str, ast.expr], me: str | None = None) -> ast.AST:
+    """copy of the tree in which every read of self.<attr> known to _own_paths is replaced by the parameter path"""
+    import copy
+
+    me = me or (env['__self__'].id if '__self__' in env else 'self')
+
+    class T(ast.NodeTransformer):
+        def visit_Attribute(self, n):
+            if isinstance(n.ctx, ast.Load) and isinstance(n.value, ast.Name) and n.value.id == me and n.attr in env:
+                return copy.deepcopy(env[n.attr])
+            self.generic_visit(n)
+            return n
+
+    return ast.fix_missing_locations(T().visit(copy.deepcopy(tree)))
+
+
+def _known(prog, module, fn: ast.AST, expr: ast.expr):
+    """('known', value) when the expression is a literal, or a name that stands for one through single-definition locals of the
+    function and the constants of the module (own or imported); None when the rule cannot tell the value"""
+    e = inline_locals(fn, expr)
+    if isinstance(e, ast.Constant):
+        return ('known', e.value)
+    if isinstance(e, ast.Name):
+        a = fn.args
+        if e.id in {x.arg for x in a.posonlyargs + a.args + a.kwonlyargs} or any(isinstance(n, ast.Name) and n.id == e.id and isinstance(n.ctx, ast.Store) for n in ast.walk(fn)):
+            return None  # a parameter / a local with several definitions
+        r = prog.resolve_name(module, e.id)
+        if r is not None and r[0] == 'value':
+            try:
+                return ('known', const_value(r[2]))
+            except ValueError:
+                return None
+    return None
 
 
 def run(ctx: Ctx) -> None:
@@ -55,7 +255,37 @@ def run(ctx: Ctx) -> None:
         ok = kdef is not None and ndef is not None and unparse(kdef.value) == f'{st}.sample_size' and unparse(ndef.value) == f'len({st}.subset)' and seq(kdef) < seq(lpdef) and seq(ndef) < seq(lpdef)
     ctx.add('C19.R1', 'sample_alternatives:correction', ok, (f.file, lpdef.lineno), f'{lpv} = ln(requested size) - ln(stratum size)' if ok else f'correction term: {unparse(lpdef.value)} is not ln(stratum.sample_size) - ln(len(stratum.subset))', unparse(lpdef.value))
     kname = m.group(1) if m else 'sample_size'
-    chosen_if = [s for s in body if isinstance(s, ast.If) and unparse(s.test) == f'chosen in {st}.subset']
+    chosen_if = [s for s in body if isinstance(s, ast.If) and unparse(inline_locals(f.node, s.test)) == f'chosen in {st}.subset']
+    # which correction the chosen alternative receives: every value that may be written into its LOG_PROBA_COL is followed back
+    # through plain copies of locals (reaching definitions) to the place where the correction variable of the loop is READ.
+    # Read under `chosen in stratum.subset`: the correction of its own stratum (wherever the write itself stands).  Read
+    # outside that test (after it, after the loop): the correction of whichever stratum was treated last - the contradiction.
+    writes = [n for n in ast.walk(f.node) if isinstance(n, ast.Assign) and unparse(n.targets[0]) == f'{CH}[LOG_PROBA_COL]']
+    site_ok, last_read = None, None
+    if len(chosen_if) == 1 and writes:
+        cfg = cfg_of(f.node)
+        in_test = {cfg.node_of(x) for s in chosen_if[0].body for x in ast.walk(s)} - {None}
+        lp_node = cfg.node_of(lpdef)
+        leaves = [(w, leaf, at) for w in writes for leaf, at in _copies(cfg, w.value, cfg.node_of(w), lpv)]
+        kinds = []
+        for w, leaf, at in leaves:
+            if isinstance(leaf, ast.Name) and leaf.id == lpv and at is not None:
+                if at in in_test and {d.node for d in cfg.reaching(at, lpv)} == {lp_node}:
+                    kinds.append('own')
+                elif at not in in_test and lp_node in {d.node for d in cfg.reaching(at, lpv)}:
+                    kinds.append('last')
+                    last_read = last_read or w
+                else:
+                    kinds.append('?')
+            elif isinstance(leaf, ast.Constant) and leaf.value is None:
+                # the "not found yet" initial value of a carrier: harmless when the write is under `carrier is not None`
+                kinds.append('own' if _under_not_none(f.node, w) else '?')
+            else:
+                kinds.append('?')
+        if 'last' in kinds:
+            site_ok = False
+        elif kinds and all(k == 'own' for k in kinds):
+            site_ok = True
     ok = len(chosen_if) == 1
     det = ''
     if ok:
@@ -63,16 +293,13 @@ def run(ctx: Ctx) -> None:
         bt = [unparse(s) for s in ci.body]
         det = ' ; '.join(bt)
         subset_copy = next((k for k, s in asg.items() if 'deepcopy' in unparse(s.value) or unparse(s.value) in (f'set({st}.subset)', f'{st}.subset.copy()')), None)
-        ok = subset_copy is not None and f'{subset_copy}.discard(chosen)' in bt and f'{kname} -= 1' in bt and f'{CH}[LOG_PROBA_COL] = {lpv}' in bt
+        ok = subset_copy is not None and f'{subset_copy}.discard(chosen)' in bt and f'{kname} -= 1' in bt and site_ok is True
         ok = ok and seq(ci) > seq(lpdef)
     ctx.add('C19.R1', 'sample_alternatives:chosen', ok, (f.file, chosen_if[0].lineno if chosen_if else lp.lineno),
             'inside its own stratum the chosen alternative is set aside, one draw less is requested and it receives the correction of that stratum, computed before the decrement' if ok
             else f'handling of the chosen alternative: {det or "no `if chosen in stratum.subset` in the stratum loop"}', det)
-    writes = [n for n in ast.walk(f.node) if isinstance(n, ast.Assign) and unparse(n.targets[0]) == f'{CH}[LOG_PROBA_COL]']
-    ok = len(writes) == 1 and bool(chosen_if) and writes[0] in chosen_if[0].body
-    outside = len(writes) == 1 and len(chosen_if) == 1 and not any(x is writes[0] for x in ast.walk(chosen_if[0]))
-    ctx.add('C19.R1', 'sample_alternatives:chosen-correction-site', ok if (ok or outside) else None, (f.file, writes[0].lineno if writes else f.line), 'the correction of the chosen alternative is assigned where its stratum is known' if ok else
-            ('the correction of the chosen alternative is assigned outside the test `chosen in stratum.subset`: it receives the value of whichever stratum was treated last' if outside else 'where the correction of the chosen alternative is assigned is not in the expected form'), 'site', positive=outside)
+    ctx.add('C19.R1', 'sample_alternatives:chosen-correction-site', site_ok, (f.file, (last_read or writes[0]).lineno if writes else f.line), 'the correction of the chosen alternative is the one read where its stratum is known' if site_ok else
+            (f'the correction written for the chosen alternative is the value `{lpv}` has outside the test `chosen in stratum.subset`: it receives the value of whichever stratum was treated last' if site_ok is False else 'where the correction of the chosen alternative is assigned is not in the expected form'), 'site', positive=site_ok is False)
     smp = [n for n in ast.walk(lp) if isinstance(n, ast.Call) and call_name(n) == 'sample']
     ok = len(smp) == 1
     if ok:
@@ -91,18 +318,24 @@ def run(ctx: Ctx) -> None:
     ctx.add('C19.R1', 'sample_alternatives:sample-correction', ok, (f.file, sw[0].lineno if sw else lp.lineno), 'the sampled alternatives of the stratum carry the same correction' if ok else 'correction of the sampled alternatives changed', 'sample')
     ok = has(f.node, f"""
 _RES = []
+___
 for _ST in self.partition:
     ___
     _RES.append(_S)
+___
 _ALL = pd.concat(_RES, ignore_index=True)
+___
 _ALL = pd.concat([{CH}, _ALL], ignore_index=True)
 return _ALL
 """) or has(f.node, f"""
 _RES = []
+___
 for _ST in self.partition:
     ___
     _RES.append(_S)
+___
 _OTHERS = pd.concat(_RES, ignore_index=True)
+___
 _ALL = pd.concat([{CH}, _OTHERS], ignore_index=True)
 return _ALL
 """)
@@ -158,66 +391,81 @@ return _ROW
 """) is not None
     ctx.add('C19.R2', 'process_row', ok, pr, 'columns are <column>_<row> for the main sample and _MEV_<column>_<row> for the second one; the sample is drawn for the choice of that individual' if ok else 'naming of the flattened columns changed', 'process_row')
     dv = G.methods['define_new_variables']
-    ok = has(dv.node, """
-for _NV in self.combined_variables:
-    for _I in range(self.total_sample_size):
-        _E = copy.deepcopy(_NV.formula)
-        _A = self.get_attributes_from_expression(_E)
-        _E.rename_elementary(_A, suffix=f'_{_I}')
-        database.define_variable(f'{_NV.name}_{_I}', _E)
-        ___
-    if self.second_partition is not None:
-        for _J in range(self.second_sample_size):
-            _E2 = copy.deepcopy(_NV.formula)
-            _A2 = self.get_attributes_from_expression(_E2)
-            _E2.rename_elementary(_A2, prefix=MEV_PREFIX, suffix=f'_{_J}')
-            database.define_variable(f'{MEV_PREFIX}{_NV.name}_{_J}', _E2)
-""".replace('_E2', '_E').replace('_A2', '_A').replace('_J', '_I'))
+    DV_PATTERN = _DV
+    # also with the single-definition locals (a cached prefix) written out and the spelled-out defaults (prefix=None) left out
+    ok = has(dv.node, DV_PATTERN) or has(_without_default_args(prog, _inlined(dv.node)), unparse(_without_default_args(prog, ast.parse(DV_PATTERN))))
     wrongp = None
     if not ok:
+        # the contradiction: the prefix given to rename_elementary in the loop over one sample has a KNOWN value (a literal, the
+        # default None, a module constant, possibly through a local) and that value is not the prefix of that sample
+        mev = _known(prog, G.module, dv.node, ast.Name(id='MEV_PREFIX', ctx=ast.Load()))
         for lp_ in [x for x in walk_no_nested(dv.node) if isinstance(x, ast.For) and isinstance(x.iter, ast.Call) and call_name(x.iter) == 'range' and len(x.iter.args) == 1]:
-            which = unparse(x_) if (x_ := lp_.iter.args[0]) is not None else ''
+            which = unparse(inline_locals(dv.node, lp_.iter.args[0]))
             second = which == 'self.second_sample_size'
             if which not in ('self.second_sample_size', 'self.total_sample_size'):
                 continue
             for c_ in [y for y in ast.walk(lp_) if isinstance(y, ast.Call) and call_name(y) == 'rename_elementary']:
-                pre = named_args(c_).get('prefix')
-                if second and pre != 'MEV_PREFIX':
-                    wrongp = f'for the second sample the attributes are renamed with prefix={pre}: the combined variable {"{MEV_PREFIX}"}<name>_<i> then reads the attributes <attr>_<i> of the alternative at position i of the MAIN sample'
-                elif not second and pre is not None and pre != "''":
-                    wrongp = f'for the main sample the attributes are renamed with prefix={pre}: the combined variable reads the attributes of the second sample'
+                bound = _bind(prog, c_)
+                if bound is None:
+                    continue  # arguments the rule cannot name: no verdict
+                pre = unparse(bound['prefix']) if 'prefix' in bound else None
+                val = ('known', None) if pre is None else _known(prog, G.module, dv.node, bound['prefix'])
+                if val is None or mev is None:
+                    continue  # a value the rule cannot follow: no verdict
+                shown = 'None (the default)' if pre is None else pre if pre == repr(val[1]) else f'{pre} = {val[1]!r}'
+                if second and val[1] != mev[1]:
+                    wrongp = f'for the second sample the attributes are renamed with prefix={shown}: the combined variable {"{MEV_PREFIX}"}<name>_<i> then reads the attributes <attr>_<i> of the alternative at position i of the MAIN sample'
+                elif not second and isinstance(val[1], str) and val[1] != '':
+                    wrongp = f'for the main sample the attributes are renamed with prefix={shown}: the combined variable <name>_<i> does not read the attributes <attr>_<i> of the main sample'
     ctx.add('C19.R2', 'define_new_variables', ok if (ok or wrongp) else None, dv, wrongp if wrongp else 'combined variable j of alternative i reads the attributes with suffix _i (MEV prefix for the second sample) and is stored under the same scheme' if ok else 'naming of the combined variables changed', 'define', positive=bool(wrongp))
     M = prog.cls(GM, 'GenerateModel')
     init = M.methods['__init__']
-    b = find(init.node, """
+    # the constructor is read with its own attributes written out in terms of its parameters (`self.context = context` makes
+    # self.context.x and context.x the same object; `self.total_sample_size = context.total_sample_size` likewise), single-definition
+    # locals written out too; the expected shapes go through the same rewriting
+    env = _own_paths(init.node)
+    cinit = _subst_own(_inlined(init.node), env)
+
+    def cpat(src: str) -> str:
+        return unparse(_subst_own(ast.parse(src), env))
+
+    b = find(cinit, cpat("""
 self.utilities = __U
 if self.context.second_partition is None:
     self.mev_utilities = __M1
 else:
     self.mev_utilities = __M2
-""")
-    ok = b is not None and m_node(_parse("{_I: self.generate_utility('', f'_{_I}') for _I in range(self.total_sample_size)}")[0].value, b['__U'][1], {}) \
-        and m_node(_parse("{_I: self.utilities[_I] for _I in range(1, self.total_sample_size)}")[0].value, b['__M1'][1], {}) \
-        and m_node(_parse("{_I: self.generate_utility(self.mev_prefix, f'_{_I}') for _I in range(self.context.second_sample_size)}")[0].value, b['__M2'][1], {})
+"""))
+    ok = b is not None and m_node(_parse(cpat("{_I: self.generate_utility('', f'_{_I}') for _I in range(self.total_sample_size)}"))[0].value, b['__U'][1], {}) \
+        and m_node(_parse(cpat("{_I: self.utilities[_I] for _I in range(1, self.total_sample_size)}"))[0].value, b['__M1'][1], {}) \
+        and m_node(_parse(cpat("{_I: self.generate_utility(self.mev_prefix, f'_{_I}') for _I in range(self.context.second_sample_size)}"))[0].value, b['__M2'][1], {})
     wrong = None
     if b is not None and not ok:
-        # the same three tables over another range of positions: which alternatives of the sample have a utility
-        WANT = {'__U': ("{_I: self.generate_utility('', f'_{_I}') for _I in __R}", ('0', 'self.total_sample_size'), 'main sample'),
-                '__M1': ("{_I: self.utilities[_I] for _I in __R}", ('1', 'self.total_sample_size'), 'main sample without the chosen alternative'),
-                '__M2': ("{_I: self.generate_utility(self.mev_prefix, f'_{_I}') for _I in __R}", ('0', 'self.context.second_sample_size'), 'second sample')}
+        # the same three tables over another range of positions: which alternatives of the sample have a utility.  A contradiction
+        # is a literal first position other than the one of that sample, or the size of the OTHER sample as bound; any other bound
+        # (a quantity the rule cannot follow) leaves the verdict open
+        total, second = cpat('self.total_sample_size'), cpat('self.context.second_sample_size')
+        WANT = {'__U': ("{_I: self.generate_utility('', f'_{_I}') for _I in __R}", ('0', total), 'main sample'),
+                '__M1': ("{_I: self.utilities[_I] for _I in __R}", ('1', total), 'main sample without the chosen alternative'),
+                '__M2': ("{_I: self.generate_utility(self.mev_prefix, f'_{_I}') for _I in __R}", ('0', second), 'second sample')}
         for key, (pat, (lo, hi), what) in WANT.items():
             bb = {}
-            if m_node(_parse(pat)[0].value, b[key][1], bb) and isinstance(bb['__R'][1], ast.Call) and call_name(bb['__R'][1]) == 'range' and 1 <= len(bb['__R'][1].args) <= 2:
+            if m_node(_parse(cpat(pat))[0].value, b[key][1], bb) and isinstance(bb['__R'][1], ast.Call) and call_name(bb['__R'][1]) == 'range' and 1 <= len(bb['__R'][1].args) <= 2 and not bb['__R'][1].keywords:
                 args = [unparse(a) for a in bb['__R'][1].args]
                 got = ('0', args[0]) if len(args) == 1 else tuple(args)
-                if got != (lo, hi):
+                lo_wrong = re.fullmatch(r'\d+', got[0]) is not None and int(got[0]) != int(lo) and got[1] == hi
+                hi_other = got[1] in (total, second) and got[1] != hi and re.fullmatch(r'\d+', got[0]) is not None
+                if lo_wrong or hi_other:
                     wrong = f'the utilities of the {what} are built for positions range({", ".join(args)}); the positions of that sample are range({lo + ", " if lo != "0" else ""}{hi}): ' + \
-                        ('the alternatives before position ' + got[0] + ' have no term in the model' if got[1] == hi else 'the positions do not cover the sample')
+                        (('the alternatives before position ' + got[0] + ' have no term in the model' if int(got[0]) > int(lo) else 'position ' + got[0] + ' (the chosen alternative) is not one of them') if lo_wrong
+                         else 'the bound is the size of the other sample')
     if wrong:
         ctx.add('C19.R2', 'GenerateModel.__init__', False, init, wrong, 'range', positive=True)
     else:
         ctx.add('C19.R2', 'GenerateModel.__init__', ok, init, 'utility i reads the attributes with suffix _i; the second sample uses the MEV prefix; without second partition the MEV sample is the main sample minus the chosen alternative' if ok else 'construction of the sampled utilities changed', 'utilities')
     n3 = 0
+    mv = _known(prog, prog.cls(SC, 'SamplingContext').module, init.node, ast.Name(id='MEV_PREFIX', ctx=ast.Load()))
+    mev_text = mv[1] if mv is not None and isinstance(mv[1], str) and mv[1] else None
     for name, fn in M.methods.items():
         COMPS = (ast.DictComp, ast.ListComp, ast.SetComp, ast.GeneratorExp)
         for lp in [n for n in walk_no_nested(fn.node) if isinstance(n, (ast.For,) + COMPS)]:
@@ -231,18 +479,29 @@ else:
             scope = lp.body if isinstance(lp, ast.For) else [lp.key, lp.value] if isinstance(lp, ast.DictComp) else [lp.elt]
             for part in scope:
                 for v in ast.walk(part):
-                    if isinstance(v, ast.Call) and call_name(v) == 'Variable' and v.args and isinstance(v.args[0], ast.JoinedStr):
-                        txt = unparse(v.args[0])
+                    if isinstance(v, ast.Call) and call_name(v) == 'Variable' and v.args:
+                        js = inline_locals(fn.node, v.args[0])  # a prefix / a name kept in a local is read as what it stands for
+                        if not isinstance(js, ast.JoinedStr):
+                            continue
+                        txt = unparse(js)
                         if not txt.endswith(f'_{{{idx}}}\'') and not txt.endswith(f'_{{{idx}}}"'):
                             continue
                         n3 += 1
-                        has_prefix = '{self.mev_prefix}' in txt or '{MEV_PREFIX}' in txt
-                        ok = has_prefix != main
+                        # what the name starts with: the prefix of the second sample, a column of the generated data (then there is
+                        # no prefix), or something the rule cannot follow (no verdict)
+                        head = js.values[0] if js.values else None
+                        lead = None
+                        if isinstance(head, ast.FormattedValue):
+                            lead = 'prefix' if unparse(head.value) in _PREFIX_EXPRS else 'column' if unparse(head.value) in _COLUMN_EXPRS else None
+                        elif isinstance(head, ast.Constant) and isinstance(head.value, str) and head.value and mev_text is not None:
+                            lead = 'prefix' if head.value.startswith(mev_text) else 'column'
+                        ok = None if lead is None else (lead == 'prefix') != main
                         ctx.add('C19.R3', f'GenerateModel.{name}:{txt[:50]}', ok, (fn.file, v.lineno),
-                                f'{txt} for an index over the {"main" if main else "second"} sample' + ('' if ok else (' reads a column of the second (MEV) sample' if main else ' reads a column of the main sample')),
+                                f'{txt} for an index over the {"main" if main else "second"} sample' + ('' if ok else ': what the name starts with is not followed' if ok is None else (' reads a column of the second (MEV) sample' if main else ' reads a column of the main sample')),
                                 detail=f'{"main" if main else "mev"}:{txt}')
                         col = re.sub(r"^f['\"]|['\"]$", '', txt)
-                        col = col.replace('{self.mev_prefix}', '')
+                        if lead == 'prefix' and isinstance(head, ast.FormattedValue):
+                            col = col[len('{' + unparse(head.value) + '}'):]
                         okc = re.fullmatch(r'(\{LOG_PROBA_COL\}|\{MEV_WEIGHT\}|\{CNL_PREFIX\}\{(\w+)\.name\}|\{self\.context\.id_column\})_\{' + re.escape(idx) + r'\}', col)
                         if okc is not None and okc.group(2):
                             # the name is that of a nest: a loop variable over the nests
